@@ -226,3 +226,4 @@ def run(ctx):
     shared.lookup_sees_one_queue_state(ctx, '8')
     shared.index_hit_verified_against_key(ctx, '9')
     shared.index_entry_purged_from_all_generations(ctx, '10')
+    shared.lazily_created_files_dropped_leniently(ctx, '11')
